@@ -17,6 +17,7 @@ R4  nothing after a failed sink write: from the Break edge of `?` on a
 from engine import flow, report
 from engine.flow import Terms, cfg, short
 from rules.common import TRUSTED
+from rules import pat
 
 PROP = "C12"
 
@@ -544,9 +545,70 @@ def rule_r4(facts):
     return r
 
 
+BUFFERING = ("std::io::BufWriter::new", "std::io::BufWriter::with_capacity", "std::io::LineWriter::new",
+             "std::io::LineWriter::with_capacity")
+
+
+def rule_r5(facts):
+    """A std buffering writer swallows the error of its final write when it is dropped (Drop ignores I/O errors):
+    every such writer built over a sink must be flushed (flush / into_inner / into_parts) on every successful path."""
+    r = report.RuleResult("C12.R5", "no buffering writer is dropped unflushed on a successful path (Drop discards write errors)")
+    n = 0
+    for b in facts.bodies:
+        if b.promoted is not None:
+            continue
+        mk = [blk for blk in b.calls() if (flow.callee(blk.term) or "").startswith(BUFFERING) or
+              short(flow.callee(blk.term) or "").split("::<")[0] in BUFFERING]
+        if not mk:
+            continue
+        tm = Terms(b)
+        c = cfg(b)
+        fn = short(b.name)
+        for blk in mk:
+            n += 1
+            # in-memory targets cannot fail
+            a0 = tm.of_operand(blk.term.args[-1] if (flow.callee(blk.term) or "").endswith("with_capacity") else blk.term.args[0])
+            if pat.has_call(a0, "Vec::new") and not pat.has_arg(a0):
+                r.ok("in-memory", None)
+                continue
+            fl = []
+            for x in b.calls():
+                nm = flow.declared(x.term) or flow.callee(x.term) or ""
+                if nm.endswith(("Write::flush", "BufWriter::into_inner", "BufWriter::into_parts", "LineWriter::into_inner")) and x.term.args and \
+                        any(q[0] == "call" and len(q) > 3 and q[3] == blk.idx for q in _subterms(tm.of_operand(x.term.args[0]))):
+                    fl.append(x.idx)
+            # returned to the caller (moved out) is fine as well: the caller owns it
+            ret_moved = ("BufWriter" in (b.locals[0].ty.s or "") or "LineWriter" in (b.locals[0].ty.s or "")) and \
+                any(q[0] == "call" and len(q) > 3 and q[3] == blk.idx for q in _subterms(tm.of_local(0)))
+            oks = [x for x in c.returns if flow.reaches_ok(b, x)] if b.locals[0].ty.name == "std::result::Result" else list(c.returns)
+            unfl = [x for x in oks if x in c.reachable_from(blk.idx, avoid=fl)]
+            okpaths = flow.reaches_ok(b, blk.idx, avoid=fl) if b.locals[0].ty.name == "std::result::Result" else bool(unfl)
+            if ret_moved:
+                r.ok("moved-out", None)
+            elif okpaths:
+                r.bad("%s|unflushed-bufwriter" % fn, "a buffering writer over the caller's sink can be dropped without flush on a successful "
+                      "path: the error of the final write is discarded by Drop and the call reports success", pat.where(b, blk.idx))
+            else:
+                r.ok("must-pass", {"fn": fn, "buffering writer": "flushed on every successful path"})
+    r.sites = n
+    r.notes.append("buffering writers constructed in the crate: %d" % n)
+    return r
+
+
+def _subterms(t, out=None):
+    out = [] if out is None else out
+    if isinstance(t, tuple):
+        if t and isinstance(t[0], str):
+            out.append(t)
+        for x in t:
+            if isinstance(x, tuple):
+                _subterms(x, out)
+    return out
+
+
 def run(ctx, t0):
     facts = ctx.facts()
-    rules = [rule_r1(facts), rule_r2(facts), rule_r3(facts), rule_r4(facts)]
+    rules = [rule_r1(facts), rule_r2(facts), rule_r3(facts), rule_r4(facts), rule_r5(facts)]
     expl = ("Static: def-use classification of every fallible call's Result over MIR (propagated / matched with an "
             "Err arm that cannot reach a successful return / explicit swallow table), provenance of the counts "
             "returned by raw read/write calls, dominance of flush and write_all over successful returns, and "
